@@ -25,6 +25,8 @@ pub struct Params {
     pub pre_packets: usize,
     pub write_menu: bool,
     pub chunks: usize,
+    /// the first chunk of every task is larger than one frame can carry (70 000 bytes): the session splits it
+    pub big_first_chunk: bool,
 }
 
 #[derive(Clone, Debug, PartialEq)]
@@ -134,7 +136,7 @@ pub fn make(p: Params) -> crate::ctl::ScenarioFn {
                         }
                     }
                     for c in 0..p.chunks {
-                        let d = pat_vec(tag, 0, 100 * (c + 1), 5 + c);
+                        let d = pat_vec(tag, 0, 100 * (c + 1), if p.big_first_chunk && c == 0 { 70_000 } else { 5 + c });
                         if p.forwarder_of == t {
                             // the path handler.rs / udp code use: queue to the forwarding task
                             if st.send_data(Bytes::from(d.clone())).is_ok() {
@@ -226,13 +228,27 @@ pub fn make(p: Params) -> crate::ctl::ScenarioFn {
                     })
                     .collect();
                 accounted += on_wire.len();
+                // a chunk larger than a frame is split by the session: compare the per-stream byte sequences
+                // (runs of data frames of one stream merged) instead of frame by frame
+                let (on_wire, log_owned) = if p.big_first_chunk { (merge_runs(&on_wire), merge_runs(log)) } else { (on_wire, log.clone()) };
+                let log = &log_owned;
                 if on_wire != *log {
                     // classify
                     let mut sorted_w: Vec<String> = on_wire.iter().map(|s| format!("{s:?}")).collect();
                     let mut sorted_l: Vec<String> = log.iter().map(|s| format!("{s:?}")).collect();
                     sorted_w.sort();
                     sorted_l.sort();
-                    let key = if sorted_w == sorted_l {
+                    let same_bytes = |a: &[Sub], b: &[Sub]| {
+                        let col = |v: &[Sub]| {
+                            let mut x: Vec<u8> = v.iter().flat_map(|s| if let Sub::Psh(_, d) = s { d.clone() } else { vec![] }).collect();
+                            x.sort_unstable();
+                            x
+                        };
+                        col(a) == col(b)
+                    };
+                    let key = if p.big_first_chunk && sorted_w != sorted_l && same_bytes(&on_wire, log) {
+                        "C11:task-order-violated"
+                    } else if sorted_w == sorted_l {
                         // same multiset, different order
                         let first_psh = on_wire.iter().position(|s| matches!(s, Sub::Psh(..)));
                         let syn = on_wire.iter().position(|s| matches!(s, Sub::Syn(..)));
@@ -275,6 +291,20 @@ pub fn make(p: Params) -> crate::ctl::ScenarioFn {
     })
 }
 
+fn merge_runs(v: &[Sub]) -> Vec<Sub> {
+    let mut out: Vec<Sub> = vec![];
+    for s in v {
+        if let (Some(Sub::Psh(i, d)), Sub::Psh(j, e)) = (out.last_mut(), s)
+            && *i == *j
+        {
+            d.extend_from_slice(e);
+            continue;
+        }
+        out.push(s.clone());
+    }
+    out
+}
+
 fn short(v: &[Sub]) -> Vec<String> {
     v.iter()
         .map(|s| match s {
@@ -287,7 +317,7 @@ fn short(v: &[Sub]) -> Vec<String> {
 
 pub fn params_json(p: &Params) -> serde_json::Value {
     json!({"scheme": p.scheme_name, "openers": p.openers, "forwarder_of": if p.forwarder_of==usize::MAX {-1} else {p.forwarder_of as i64},
-           "heartbeat_writer": p.heartbeat_writer, "pre_packets": p.pre_packets, "write_menu": p.write_menu, "chunks": p.chunks})
+           "heartbeat_writer": p.heartbeat_writer, "pre_packets": p.pre_packets, "write_menu": p.write_menu, "chunks": p.chunks, "big_first_chunk": p.big_first_chunk})
 }
 
 pub fn all_params(tier: Tier) -> Vec<(Params, usize)> {
@@ -317,9 +347,17 @@ pub fn all_params(tier: Tier) -> Vec<(Params, usize)> {
                         pre_packets: pre,
                         write_menu: wm,
                         chunks: 2,
+                        big_first_chunk: false,
                     },
                     if tier.is_thorough() { bt } else { bq },
                 ));
+                // the same race with a first chunk that needs several frames (direct writers and the forwarding task)
+                if !hb && !wm && pre == 0 && scheme_name != "tiny" {
+                    v.push((
+                        Params { scheme, scheme_name, openers: 2, forwarder_of: fw, heartbeat_writer: false, pre_packets: 0, write_menu: false, chunks: 2, big_first_chunk: true },
+                        if tier.is_thorough() { 2 } else { 1 },
+                    ));
+                }
             }
         }
     }
